@@ -33,7 +33,7 @@ expired nodes are removed and only live ones returned by the gates [LIVE]; every
 value returned comes from a node obtained through an expiry gate called with the operation's own time, with no state
 change in between [GATE]; no index computed before a lazy removal is used after it, except the parent anchor whose
 links are re-read [STALE]. The behaviour as a whole (all histories) is NOT decided; the search-tree invariant (C02) is
-assumed. Every path from the entry of a searching operation to a return passes its search construct (descent loop / binary search), or returns because the collection is empty, or on a comparison of the probe with the first / last element (list) or the root entry with an empty far subtree (tree) that is evaluated against the role's semantics: no answer is given in front of the search [BYPASS].""",
+assumed. Every path from the entry of a searching operation to a return passes its search construct (descent loop / binary search), or returns because the collection is empty, or on a comparison of the probe with the first / last element (list) or the root entry with an empty far subtree (tree) that is evaluated against the role's semantics: no answer is given in front of the search [BYPASS]. Every operation hands its own time parameter to the gates and helpers it calls [GATE: time-passed-on].""",
      ["C02: the tree is a valid search tree after every completed removal"],
      {'DESCENT': 4, 'LIVE': 4, 'GATE': 7, 'STALE': 20, 'BYPASS': 4})
 
@@ -46,7 +46,7 @@ of that very entry (seg-family predicate: live <=> expiration >= time) and every
 a copy is reported exactly when trailing_zeros(item.mask & visit mask) equals the place being scanned; the advanced
 position is saved before each yield, the place cursor advances only through the bit iterator with the position reset
 to 0, empty lists are skipped and the out-of-range marker is returned only on exhaustion; the iterator borrows the tree
-mutably for its whole life [SEGFLOW, LIVE]. Not decided: the mask arithmetic (C14, C15).""",
+mutably for its whole life [SEGFLOW, LIVE]. Not decided: the mask arithmetic (C14, C15). The iterator's first place comes out of the bit iterator like every later one; a selected place is passed over only when its list is empty (and the list type's emptiness is `buffer.is_empty()`); the per-list insertion stores exactly one copy [SEGFLOW: start, skip, insert helper].""",
      ["C14, C15 (layout and mask arithmetic: place and visit masks intersect iff bucket ranges overlap)"],
      {'LIVE': 1, 'SEGFLOW': 6})
 
@@ -93,7 +93,7 @@ buffer [LIVE, GATE]; the explicit-stack traversal is in-order: by a must-dataflo
 top frame, a node is emitted only when its left child is consumed and it is itself still pending, the right child is
 pushed only after the node was dealt with, every field is cleared when consumed, a frame is popped only when nothing is
 pending, and the frame fields hold the links their names say [INORDER]; no panic in the traversal's index arithmetic
-[PANICSITE].""",
+[PANICSITE]. The export hands its own time to what it delegates to, and the list's export is its purged buffer collected front to back, entry by entry [GATE: time-passed-on, list-export-order].""",
      ["C02 (in-order traversal of a search tree is key order)"],
      {'LIVE': 3, 'GATE': 2, 'INORDER': 1, 'PANICSITE': 3})
 
